@@ -1,6 +1,7 @@
 SPECIFICATION GSpecAlt
 CONSTANTS Devs = {"Dev_C13_FetcherSliceReversed"}
-          Cases <- GAltT
+          Cases <- GSel
+          Family = "GAlt"
           GF = 4
           FPKeys = {}
 INVARIANTS Emit1 EmitSafe NoFalseNegative CountRight
